@@ -166,6 +166,16 @@ Theorem C02_shamir_privacy : forall F (K : fops F), flaws K -> forall (fromN : N
 Proof. exact @shamir_privacy. Qed.
 Print Assumptions C02_shamir_privacy.
 
+(* Shamir shares converted to additive form over any quorum of >= t distinct holders sum to the secret *)
+Theorem C02_shamir_to_additive_sums : forall F (K : fops F), flaws K -> forall (fromN : N -> F) cs Q,
+  (forall a b, In a Q -> In b Q -> fromN a = fromN b -> a = b) ->
+  NoDup Q -> (length cs <= length Q)%nat ->
+  exists f : N -> F,
+    (forall id, In id Q -> shamir_to_additive K fromN (id, poly_eval K cs (fromN id)) Q = Some (f id)) /\
+    fsumN K f Q = nth 0 cs (f0 K).
+Proof. exact @shamir_to_additive_sums. Qed.
+Print Assumptions C02_shamir_to_additive_sums.
+
 Theorem C02_additive_correct : forall F (K : fops F), flaws K -> forall ps (shares : list (N * F)) s rs,
   NoDup (map fst shares) -> seteqb (map fst shares) ps = true ->
   map snd shares = sum_to_secret K s rs ->
@@ -199,6 +209,20 @@ Theorem C02_isn_privacy : forall F (K : fops F), flaws K -> forall mus (summands
   fsum K (upd k (fadd K (nth k summands (f0 K)) d) summands) = fadd K (fsum K summands) d.
 Proof. exact @isn_privacy. Qed.
 Print Assumptions C02_isn_privacy.
+
+(* ISN shares converted to additive form over a quorum that every maximal unqualified set misses
+   (i.e. a qualified quorum) sum to the secret.  The second hypothesis excludes members that lie in every
+   maximal unqualified set: their share is empty and the code panics (finding isn-empty-share-toadditive-panic) *)
+Theorem C02_isn_to_additive_sums : forall F (K : fops F), flaws K -> forall mus (summands : list F) Q,
+  length summands = length mus -> NoDup Q ->
+  (forall k, (k < length mus)%nat -> exists id, In id Q /\ ~ In id (nth k mus [])) ->
+  (forall id, In id Q -> exists k, (k < length mus)%nat /\ ~ In id (nth k mus [])) ->
+  exists f : N -> F,
+    (forall id, In id Q ->
+       isn_to_additive K mus (id, filter (fun kv => negb (memN id (nth (fst kv) mus []))) (combine (seq 0 (length mus)) summands)) Q = Some (f id)) /\
+    fsumN K f Q = fsum K summands.
+Proof. exact @isn_to_additive_sums. Qed.
+Print Assumptions C02_isn_to_additive_sums.
 
 (* ---- hypotheses are satisfiable: threshold (2,3) over Z_7, a CNF and a unanimity MSP ------------------ *)
 Definition K7 := ZpS 7 (prime_gt0 7 prime_7).
